@@ -697,9 +697,26 @@ def r110(db, ctx):
         fs = [f for f in db.fns.values() if f.path.startswith(IT) and f.name == name and f.kind == 'AssocFn' and not f.promoted_of]
         for f in fs:
             e = ret(f)
-            mm = m(('call~', 'Option::map', (('call~', (range_call, 'Iterator::' + name if name == 'next' else 'DoubleEndedIterator::next_back'), (('fld', ('p', 1), 'indices'),)), '$clo')), e) if e else None
+            RNG = ('call~', (range_call, 'Iterator::' + name if name == 'next' else 'DoubleEndedIterator::next_back'), (('fld', ('p', 1), 'indices'),))
+            mm = m(('call~', 'Option::map', (RNG, '$clo')), e) if e else None
             out = RD.apply_fn(db, mm['$clo'], [('sym', 'i')]) if mm is not None else None
             ok = out is not None and m(('call~', 'Iter::get', (('p', 1), ('sym', 'i'))), norm(out)) is not None
+            if not ok:
+                # `let i = self.indices.next()?; Some(self.get(i))`  |  match self.indices.next() { Some(i) => Some(self.get(i)), None => None }
+                Rf = X.Rec(f)
+                kinds = set()
+                for d_ in f.defs().get(0, []):
+                    v = norm(Rf.call(d_[2]) if d_[1] == 'term' else Rf.rvalue(d_[2]))
+                    if v[0] == 'agg' and isinstance(v[1], tuple) and len(v[1]) > 2 and v[1][2] == 'None':
+                        kinds.add('none')
+                    elif m(('call~', 'from_residual', '_'), v) is not None:
+                        kinds.add('none')
+                    elif v[0] == 'agg' and len(v[2]) == 1 and (m(('call~', 'Iter::get', (('p', 1), ('fld', ('down', RNG, 'Some'), '0'))), v[2][0]) is not None or
+                                                                 m(('call~', 'Iter::get', (('p', 1), ('fld', ('down', ('call~', 'Try::branch', (RNG,)), 'Continue'), '0'))), v[2][0]) is not None):
+                        kinds.add('some')
+                    else:
+                        kinds.add('other')
+                ok = kinds == {'none', 'some'}
             if ok:
                 n += 1
                 ctx.ok('R1.10', f, f'{name}() = indices.{name}().map(|i| self.get(i))')
@@ -716,7 +733,11 @@ def r110(db, ctx):
     for f in [f for f in db.fns.values() if (f.path.endswith('StripedScores::<T, C>::unstripe') or 'From<lightmotif::scores::StripedScores<T, C>> for alloc::vec::Vec<T>>::from' in f.path)
               and not f.promoted_of and f.kind in ('AssocFn', 'Fn')]:
         e = ret(f)
-        if e is not None and m(coll, e) is not None:
+        # possibly through the sibling (`self.unstripe().into()`), or wrapped in the Scores constructor
+        while e is not None and e[0] == 'call' and len(e[2]) == 1 and e[1].endswith(('Scores::new', 'Scores::from', 'From::from', 'Into::into', 'Vec::from')):
+            e = e[2][0]
+        via_sibling = e is not None and m(('call~', 'StripedScores::unstripe', (('p', 1),)), e) is not None and not f.path.endswith('::unstripe')
+        if e is not None and (m(coll, e) is not None or via_sibling):
             n += 1
             ctx.ok('R1.10', f, 'collects self.iter() in order')
         else:
